@@ -32,7 +32,8 @@ def get_func_in_module(module: str, qualname: str) -> Callable[..., Any]:
     elif isinstance(func, property):
         if func.fget is not None:
             if (func.fset is None) and (func.fdel is None):
-                func = func.fget
+                # the getter may be decorated itself
+                func = inspect.unwrap(func.fget)
             else:
                 raise InvalidTypeError(
                     f"Property {module}.{qualname} has setter or deleter."
@@ -40,7 +41,7 @@ def get_func_in_module(module: str, qualname: str) -> Callable[..., Any]:
         else:
             raise InvalidTypeError(f"Property {module}.{qualname} is missing getter")
     elif cached_property and isinstance(func, cached_property):
-        func = func.func
+        func = inspect.unwrap(func.func)
     elif not isinstance(func, (types.FunctionType, types.BuiltinFunctionType)):
         raise InvalidTypeError(
             f"{module}.{qualname} is of type '{type(func)}', not function."
